@@ -343,8 +343,14 @@ def c18(tier, seed):
     jobs = []
     impls = [('overalloc-c++11', frozenset(), 11, []), ('overalloc-c++14', frozenset(), 14, []), ('aligned_alloc-c++17', frozenset(), 17, []),
              ('aligned_alloc-c++20', frozenset(), 20, []), ('mm_malloc-c++11', configs.parse('SSE2'), 11, []), ('mm_malloc-c++17', configs.parse('SSE2'), 17, []),
-             ('mm_malloc-avx2-c++20', configs.parse('AVX2'), 20, [])]
+             ('mm_malloc-avx2-c++20', configs.parse('AVX2'), 20, []),
+             # scalar-only x86 macro sets: AVEL_X86 without AVEL_SSE must behave like the portable build in both functions
+             ('overalloc-popcnt-c++11', configs.parse('POPCNT'), 11, []), ('aligned_alloc-bmi2-c++17', configs.parse('BMI2'), 17, [])]
     parts = (1, 2, 3, 4, 5, 6, 7)
+    # release-style builds (-O3 -DNDEBUG): anything placed inside assert() disappears
+    for name, cfg, std in (('overalloc-c++11', frozenset(), 11), ('overalloc-c++14', frozenset(), 14), ('mm_malloc-c++11', configs.parse('SSE2'), 11), ('aligned_alloc-c++17', frozenset(), 17)):
+        for p in parts:
+            jobs.append(Job('c18_alloc.cpp', cfg, 'g++' if std != 14 else 'clang++', std, 'o3', p, extra_srcs=['kit/mlog.c'], cflags_override=['-O3', '-DNDEBUG']))
     for name, cfg, std, ex in impls:
         for p in parts:
             jobs.append(Job('c18_alloc.cpp', cfg, 'g++', std, 'plain', p, extra=ex, extra_srcs=['kit/mlog.c'], cflags_override=['-O2']))
@@ -364,7 +370,8 @@ def c18(tier, seed):
                   '(n in 0..4096, odd sizes favoured) / deallocate of a random live block / full verification; all 3-allocation histories over sizes {0,1,3,8,13} x 6 free orders; std::vector growth/copy/move/'
                   'swap/shrink, std::list, std::map, rebind. Monitors: shadow map of live ranges (non-null, aligned to A, disjoint), full-range id-derived pattern re-verified periodically and at deallocation, '
                   'malloc event log via interposed malloc/free/aligned_alloc/posix_memalign/memalign (each user range inside one live underlying block, each free an exact live base once, underlying-live == user-live '
-                  'at quiescent points and 0 at the end); san build: ASan heap errors, LeakSanitizer at exit, UBSan. distinct = (implementation, T, A, history kind, (size mod 8, op) class).',
+                  'at quiescent points and 0 at the end); san build: ASan heap errors, LeakSanitizer at exit, UBSan. implementations: over-allocation (C++11/14), aligned_alloc (C++17/20), _mm_malloc (SSE2/AVX2), '
+                  'plus scalar-only x86 macro sets (POPCNT C++11, BMI2 C++17) and release-style -O3 -DNDEBUG builds. distinct = (implementation, T, A, history kind, (size mod 8, op) class).',
                   assumptions=['glibc malloc is trusted', 'the three implementations are selected by AVEL_SSE / __cplusplus exactly as in the header', 'where the C++17 path does not compile without <cstdlib> (C19 finding) the harness pre-includes it so the allocation logic can still be observed'],
                   min_cells=len(impls))
 
